@@ -125,6 +125,17 @@ class TransformSpace(Subspace):
         elif cont == "list":
             V = [d.V, d.V2]
             ncols = 2
+        elif cont == "dict_mixed":
+            # first column integer, second float: a per-column result must keep its own dtype
+            Vi = np.array(C.u_table("i8", case["seed"] + 1)[:n], dtype="i8")
+            V = {"i": Vi, "f": d.V}
+            ncols = 2
+        elif cont == "frame_mixed":
+            Vi = np.array(C.u_table("i4", case["seed"] + 1)[:n], dtype="i4")
+            exp_index = INDEXES["strings"](n)
+            V = pd.DataFrame({"f": d.V, "i": Vi, "g": d.V2}, index=exp_index)
+            M = pd.Series(M, index=exp_index)
+            ncols = 3
         elif cont == "plframe":
             V = pl.DataFrame({"a": d.V, "b": d.V2})
             ncols = 2
@@ -206,9 +217,10 @@ def subspaces(tier, seed):
     sp.append(S(f"chunkwise-unified-n1to{h}", 2 if q else 3, 1, h, rep="chunkwise-unified", seed=seed))
     sp.append(S(f"chunkwise-flat-n1to{h}", 2, 1, h, rep="chunkwise-flat", seed=seed))
     sp.append(S(f"arrow-prechunked-n1to{h}", 2 if q else 3, 1, h, rep="arrow", seed=seed))
-    for cont in ("shuffled", "strings", "duplicates", "polars", "frame", "dict", "list", "plframe"):
+    for cont in ("shuffled", "strings", "duplicates", "polars", "frame", "dict", "list", "plframe",
+                 "dict_mixed", "frame_mixed"):
         sp.append(S(f"contig-{cont}-n1to3", 2, 1, 3, container=cont, seed=seed))
-    for cont in ("shuffled", "polars", "frame"):
+    for cont in ("shuffled", "polars", "frame", "dict_mixed"):
         sp.append(S(f"chunkwise-{cont}-n1to3", 2, 1, 3, rep="chunkwise", container=cont, seed=seed))
     for vd in ("i8", "M8[ns]", "b") + (() if q else ("f4", "m8[ns]", "u1", "i4")):
         sp.append(S(f"contig-numpy-{vd}-n1to3", 2, 1, 3, vdtype=vd, seed=seed))
